@@ -84,8 +84,20 @@ def convolve_model_dir_monochromatic(model_dir, overwrite=False, max_ram=8,
 
     # Figure out range of wavelength indices to use
     # (wavelengths array is sorted in reverse order)
-    jlo = n_wav - 1 - (wavelengths[::-1].searchsorted(wav_max) - 1)
-    jhi = n_wav - 1 - wavelengths[::-1].searchsorted(wav_min)
+    # (a limit given in another unit that coincides with a tabulated
+    # wavelength can end up one rounding error away from it once converted,
+    # so it is moved back onto it)
+    increasing = wavelengths[::-1]
+    limits = []
+    for limit in (wav_max, wav_min):
+        if isinstance(limit, u.Quantity) and np.isfinite(limit.value):
+            value = limit.to(wavelengths.unit).value
+            close = np.abs(increasing.value - value) <= 1.e-14 * np.abs(value)
+            if np.any(close):
+                limit = increasing[close][0]
+        limits.append(limit)
+    jlo = n_wav - 1 - (increasing.searchsorted(limits[0]) - 1)
+    jhi = n_wav - 1 - increasing.searchsorted(limits[1])
     # (no wavelength may fall inside the window, in which case there is
     # nothing to do)
     chunk_size = max(1, min(chunk_size, jhi - jlo + 1))
